@@ -13,13 +13,18 @@
 (*      eq:  length test, then element loop;                               *)
 (*      cmp: element loop up to the shorter length, then the lengths       *)
 (*           (cmp_inner, cmp_str_inner, const_cmp_for!(slice ..));         *)
-(*      option arms as one `match`.                                        *)
+(*      option arms as one `match`;                                        *)
+(*      record: a user aggregate compared through impl_cmp! — the fields   *)
+(*           in order, `&&` of const_eq! for eq, a chain of                *)
+(*           try_equal!(const_cmp!(..)) for cmp (returns at the first      *)
+(*           non-Equal field, Equal after the last).                       *)
 (***************************************************************************)
 EXTENDS Common, TLC
 
 CONSTANTS Flat,     \* set of flat sequences
           Nested    \* set of sequences of flat sequences
 
+RecordFields == 3      \* number of fields of the user aggregate of kind "record"
 Ord == {"Less", "Equal", "Greater"}
 IntCmp(x, y) == IF x < y THEN "Less" ELSE IF x > y THEN "Greater" ELSE "Equal"
 
@@ -39,7 +44,7 @@ LexNested(l, r) == IF l = <<>> /\ r = <<>> THEN "Equal"
 
 \* reference for a pair of kind k
 RefCmp(k, l, r) == CASE k = "scalar" -> IntCmp(l, r)
-                     [] k = "flat"   -> LexFlat(l, r)
+                     [] k \in {"flat", "record"} -> LexFlat(l, r)
                      [] k = "nested" -> LexNested(l, r)
 RefOptCmp(k, l, r) ==
     IF IsNone(l) /\ IsNone(r) THEN "Equal"
@@ -54,14 +59,15 @@ vars == <<kind, l, r, mode, i, pc, res>>
 
 Init == /\ \/ kind = "flat" /\ l \in Flat /\ r \in Flat
            \/ kind = "nested" /\ l \in Nested /\ r \in Nested
+           \/ kind = "record" /\ l \in Flat /\ r \in Flat /\ Len(l) = RecordFields /\ Len(r) = RecordFields
         /\ mode \in {"eq", "cmp"}
         /\ i = 0 /\ pc = "start" /\ res = "none"
 
-ElemCmp(x, y) == IF kind = "flat" THEN IntCmp(x, y) ELSE LexFlat(x, y)
+ElemCmp(x, y) == IF kind \in {"flat", "record"} THEN IntCmp(x, y) ELSE LexFlat(x, y)
 
 Start ==
     /\ pc = "start" /\ UNCHANGED <<kind, l, r, mode, i>>
-    /\ IF mode = "eq" /\ Len(l) # Len(r) THEN res' = "false" /\ pc' = "done"
+    /\ IF mode = "eq" /\ kind # "record" /\ Len(l) # Len(r) THEN res' = "false" /\ pc' = "done"
        ELSE pc' = "loop" /\ UNCHANGED res
 
 Step ==
@@ -71,7 +77,8 @@ Step ==
             ELSE IF l[i + 1] # r[i + 1] THEN res' = "false" /\ pc' = "done" /\ UNCHANGED i
             ELSE i' = i + 1 /\ UNCHANGED <<pc, res>>
        ELSE IF i = MinOf(Len(l), Len(r))
-            THEN res' = IntCmp(Len(l), Len(r)) /\ pc' = "done" /\ UNCHANGED i
+            THEN \* slices: the lengths decide; record: the last try_equal! yields Equal
+                 res' = (IF kind = "record" THEN "Equal" ELSE IntCmp(Len(l), Len(r))) /\ pc' = "done" /\ UNCHANGED i
             ELSE IF ElemCmp(l[i + 1], r[i + 1]) # "Equal"
             THEN res' = ElemCmp(l[i + 1], r[i + 1]) /\ pc' = "done" /\ UNCHANGED i
             ELSE i' = i + 1 /\ UNCHANGED <<pc, res>>
@@ -84,7 +91,7 @@ ReadsInBounds == pc = "loop" /\ i < (IF mode = "eq" THEN Len(l) ELSE MinOf(Len(l
 
 Refines == pc = "done" =>
               IF mode = "eq" THEN res = (IF l = r THEN "true" ELSE "false")
-              ELSE res = (IF kind = "flat" THEN LexFlat(l, r) ELSE LexNested(l, r))
+              ELSE res = (IF kind \in {"flat", "record"} THEN LexFlat(l, r) ELSE LexNested(l, r))
 
 -----------------------------------------------------------------------------
 (* laws of the reference order on the explored domain (consequences stated by the property) *)
